@@ -173,10 +173,16 @@ class ProgGen:
             c.attrs.append(sv_error(rng.choice(["ContractError", "crate::error::MyError"])))
         if rng.random() < 0.2:
             c.attrs.append(sv_custom(msg=rng.choice([None, "MyMsg"]), query=rng.choice([None, "MyQuery"])))
+        # forwarded type attributes: several per kind, written in any order (kinds interleaved, e.g. all derives first and
+        # all serde attributes after them)
+        fwd = []
         for k in ("exec", "query", "sudo", "instantiate", "migrate"):
-            if rng.random() < 0.25:
-                c.attrs.append(sv_msg_attr(k, rng.choice(["derive(PartialOrd)", "derive(Eq, Hash)", 'serde(deny_unknown_fields)',
-                                                          "cfg_attr(test, derive(Default))"])))
+            r = rng.random()
+            for _ in range(0 if r < 0.7 else (1 if r < 0.88 else rng.choice([2, 3]))):
+                fwd.append(sv_msg_attr(k, rng.choice(["derive(PartialOrd)", "derive(Eq, Hash)", 'serde(deny_unknown_fields)',
+                                                      "cfg_attr(test, derive(Default))", "derive(Ord)", 'doc = "forwarded"'])))
+        rng.shuffle(fwd)
+        c.attrs.extend(fwd)
         if rng.random() < 0.2:
             c.attrs.append(foreign("cfg_attr", "not(feature = \"library\"), allow(dead_code)"))
         methods = [self.gen_method("instantiate", self.fresh_name(used, ["plain", "multi"]), generics)]
